@@ -167,8 +167,8 @@ def _region_model(region, length: int, circular: bool) -> dict:
     return {"mode": "plain", "parts": parts, "lo": parts[0][0], "hi": parts[0][1]}
 
 
-def _expected_items(spec: dict, region, protos: dict, subs: dict) -> list:
-    """ what has to be drawn: dicts with kind, label, loc, core, plus bookkeeping """
+def _expected_items(spec: dict, region, protos: dict, subs: dict) -> tuple:
+    """ (what has to be drawn: dicts with kind, label, loc, core, plus bookkeeping; number of hidden singles) """
     items = []
     seen = set()
     has_subs = bool(region.subregions)
